@@ -16,6 +16,7 @@
 
 #include <addrman.h>
 #include <addrman_impl.h>
+#include <crypto/common.h>
 #include <netaddress.h>
 #include <netgroup.h>
 #include <protocol.h>
@@ -103,7 +104,7 @@ static CNetAddr MakeNetAddr(Network net, FastRandomContext& rng, const std::vect
 }
 
 struct Slot { int b, p; bool operator==(const Slot&) const = default; };
-struct UAddr { std::string name; CService svc; std::string net; bool routable; std::string self; };
+struct UAddr { std::string name; CService svc; std::string net; std::string cls; bool routable; std::string self; };   // net = GetNetwork(), cls = GetNetClass()
 struct USrc { std::string name; CNetAddr addr; };
 struct Universe {
     std::vector<UAddr> addrs; std::vector<USrc> srcs;
@@ -140,6 +141,7 @@ struct Builder {
     {
         UAddr a; a.name = "a" + std::to_string(U.addrs.size() + 1); a.svc = c; a.routable = c.IsRoutable();
         a.net = a.routable ? NetName(c.GetNetwork()) : "unroutable"; a.self = "none";
+        a.cls = a.routable ? NetName(c.GetNetClass()) : "unroutable";
         U.idx[c] = U.addrs.size(); U.addrs.push_back(a);
     }
     void Finish()
@@ -156,6 +158,33 @@ struct Builder {
     }
 };
 static const auto ANY = [](const CService&) { return true; };
+
+// IPv6 addresses with an embedded IPv4 address: GetNetwork() says IPv6, GetNetClass() (and the netgroup) say IPv4
+enum class Emb { SIXTO4, TEREDO, NAT64, SIIT };
+static CNetAddr Embedded(Emb kind, uint32_t ipv4, FastRandomContext& rng)
+{
+    std::array<uint8_t, 16> b{};
+    const auto r = rng.randbytes(16);
+    switch (kind) {
+    case Emb::SIXTO4: std::copy(r.begin(), r.end(), b.begin()); b[0] = 0x20; b[1] = 0x02; WriteBE32(&b[2], ipv4); break;
+    case Emb::TEREDO: std::copy(r.begin(), r.end(), b.begin()); b[0] = 0x20; b[1] = 0x01; b[2] = 0; b[3] = 0; WriteBE32(&b[12], ~ipv4); break;
+    case Emb::NAT64: b[1] = 0x64; b[2] = 0xff; b[3] = 0x9b; WriteBE32(&b[12], ipv4); break;
+    case Emb::SIIT: b[8] = 0xff; b[9] = 0xff; WriteBE32(&b[12], ipv4); break;
+    }
+    in6_addr a; std::memcpy(a.s6_addr, b.data(), 16);
+    return CNetAddr{a};
+}
+// an embedded-IPv4 address of the given kind whose IPv4 address lies in hi16.x.y and that satisfies pred
+static CService FindEmbedded(Builder& B, Emb kind, uint32_t hi16, const std::function<bool(const CService&)>& pred)
+{
+    for (int n = 0; n < 20'000'000; ++n) {
+        CService c{Embedded(kind, (hi16 << 16) | uint32_t(B.rng.randbits(16)), B.rng), 8333};
+        if (!c.IsValid() || !c.IsRoutable() || B.U.idx.count(c)) continue;
+        if (c.GetNetwork() != NET_IPV6 || c.GetNetClass() != NET_IPV4) { std::fprintf(stderr, "universe: %s is not classified IPv6 / IPv4\n", c.ToStringAddr().c_str()); std::exit(2); }
+        if (pred(c)) return c;
+    }
+    std::fprintf(stderr, "universe: search exhausted (embedded)\n"); std::exit(2);
+}
 
 static void CommonSources(Builder& B)
 {
@@ -218,6 +247,37 @@ static Universe BuildCluster()
     }
     B.AddSrc(static_cast<const CNetAddr&>(B.A("a2").svc));
     B.AddSrc(static_cast<const CNetAddr&>(B.A("a5").svc));
+    B.Finish();
+    return B.U;
+}
+
+// Universe 2: addresses that the two classification functions put into different networks (GetNetwork() = IPv6, GetNetClass() =
+// IPv4: 6to4, Teredo, NAT64, SIIT). They share tried slots with ordinary IPv4 / IPv6 addresses (their netgroup is the embedded
+// IPv4 address' /16), so that either kind gets evicted by the other, and new slots under the frequent sources.
+static Universe BuildEmbedded()
+{
+    Builder B; CommonSources(B);
+    auto ts = [&](const std::string& n) { return TriedSlot(B.A(n).svc); };
+    auto ns = [&](const std::string& n, const std::string& s) { return NewSlot(B.A(n).svc, B.S(s).addr); };
+    const uint32_t G1 = (8u << 8) | 8u, G2 = (9u << 8) | 9u, G3 = (11u << 8) | 11u, G4 = (12u << 8) | 12u;
+    B.Add(B.Find(NET_IPV4, {8, 8}, ANY));                                                                                 // a1  8.8.x.y
+    B.Add(FindEmbedded(B, Emb::SIXTO4, G1, [&](const CService& c) { return TriedSlot(c) == ts("a1"); }));                  // a2  6to4, a1's tried slot
+    B.Add(FindEmbedded(B, Emb::TEREDO, G1, [&](const CService& c) { return TriedSlot(c) == ts("a1"); }));                  // a3  Teredo
+    B.Add(FindEmbedded(B, Emb::NAT64, G1, [&](const CService& c) { return TriedSlot(c) == ts("a1"); }));                   // a4  NAT64
+    B.Add(FindEmbedded(B, Emb::SIIT, G1, [&](const CService& c) { return TriedSlot(c) == ts("a1"); }));                    // a5  SIIT
+    B.Add(FindEmbedded(B, Emb::SIXTO4, G2, ANY));                                                                          // a6  6to4 anchor
+    B.Add(B.Find(NET_IPV4, {9, 9}, [&](const CService& c) { return TriedSlot(c) == ts("a6"); }));                          // a7  IPv4, a6's tried slot
+    B.Add(B.Find(NET_IPV6, {0x2a, 0x01}, [&](const CService& c) { return TriedSlot(c) == ts("a6"); }));                    // a8  plain IPv6, a6's tried slot
+    B.Add(FindEmbedded(B, Emb::TEREDO, G3, ANY));                                                                          // a9  Teredo anchor
+    B.Add(B.Find(NET_IPV4, {11, 11}, [&](const CService& c) { return TriedSlot(c) == ts("a9"); }));                        // a10 IPv4, a9's tried slot
+    B.Add(FindEmbedded(B, Emb::SIXTO4, G1, [&](const CService& c) { return NewSlot(c, B.S("s1").addr) == ns("a1", "s1"); })); // a11 6to4, a1's new slot under s1
+    B.Add(B.Find(NET_IPV4, {9, 9}, [&](const CService& c) { return NewSlot(c, B.S("s2").addr) == ns("a6", "s2"); }));       // a12 IPv4, a6's new slot under s2
+    B.Add(FindEmbedded(B, Emb::NAT64, G4, ANY));                                                                           // a13 NAT64
+    B.Add(B.Find(NET_ONION, {}, ANY));                                                                                     // a14
+    B.Add(B.Find(NET_IPV6, {0x2a, 0x04}, ANY));                                                                            // a15 plain IPv6
+    B.Add(B.Find(NET_IPV4, {8, 8}, [&](const CService& c) { return NewSlot(c, B.S("s1").addr) == ns("a2", "s1"); }));       // a16 IPv4, a2's new slot under s1
+    B.AddSrc(static_cast<const CNetAddr&>(B.A("a2").svc));
+    B.AddSrc(static_cast<const CNetAddr&>(B.A("a7").svc));
     B.Finish();
     return B.U;
 }
@@ -315,7 +375,8 @@ struct Driver {
             Slot t = TriedSlot(a.svc); UniValue tj(UniValue::VARR); tj.push_back(t.b); tj.push_back(t.p); tslot.pushKV(a.name, tj);
             UniValue pj(UniValue::VARR); for (int b = 0; b < ADDRMAN_NEW_BUCKET_COUNT; ++b) pj.push_back(NewPos(a.svc, b)); npos.pushKV(a.name, pj);
         }
-        UniValue uni(UniValue::VOBJ); uni.pushKV("net", net); uni.pushKV("routable", routable); uni.pushKV("self", self);
+        UniValue cls(UniValue::VOBJ); for (const auto& a : u.addrs) cls.pushKV(a.name, a.cls);
+        UniValue uni(UniValue::VOBJ); uni.pushKV("net", net); uni.pushKV("cls", cls); uni.pushKV("routable", routable); uni.pushKV("self", self);
         UniValue hash(UniValue::VOBJ); hash.pushKV("tslot", tslot); hash.pushKV("npos", npos);
         line.pushKV("uni", uni); line.pushKV("hash", hash); line.pushKV("text", text);
         Out(line);
@@ -338,6 +399,28 @@ struct Driver {
         // the first three sources are frequent (the designed new-table collisions happen under them)
         if (rng.randrange(10) < 6) return U->srcs[rng.randrange(3)];
         return U->srcs[rng.randrange(U->srcs.size())];
+    }
+    // t takes the tried slot, x collides and - five hours and a failed connection to t later - evicts it; then the same the other
+    // way round. Each eviction moves an entry from the tried counters of its network to the new counters of its network.
+    void EvictBothWays(const UAddr& t, const UAddr& x)
+    {
+        Add({&t}, PickSrc(), 0, {now}, {NODE_NETWORK}); Good(t, now);
+        Add({&x}, PickSrc(), 0, {now}, {NODE_NETWORK}); Good(x, now);
+        Tick(5 * 3600); Attempt(t, true, now); Tick(120); Resolve();
+        Good(t, now);
+        Tick(5 * 3600); Attempt(x, true, now); Tick(120); Resolve();
+    }
+    // y is announced into a new slot that x (fresh, referenced once) occupies: y is refused and its entry dropped again
+    void BlockedScenario()
+    {
+        for (const auto& nc : U->clusters) {
+            if (nc.src < 0) continue;
+            const UAddr &x = U->addrs[nc.addrs[0]], &y = U->addrs[nc.addrs[1]];
+            if (am->FindAddressEntry(CAddress{x.svc, NODE_NONE}) || am->FindAddressEntry(CAddress{y.svc, NODE_NONE})) continue;
+            Add({&x}, U->srcs[nc.src], 0, {now}, {NODE_NETWORK});
+            Add({&y}, U->srcs[nc.src], 0, {now}, {NODE_NETWORK});
+            return;
+        }
     }
     // a pending collision whose entry is deleted (its id stays behind in the set): t takes the tried slot, x collides with it,
     // a month later x is terrible and z, which shares x's new slot under src, overwrites it
@@ -537,13 +620,20 @@ static int Drive(uint64_t seed, int sessions, int ops)
         AddrManDeterministic probe{0};
         g_key = probe.Key();
     }
-    const Universe mixed = BuildMixed(), cluster = BuildCluster();
+    const Universe mixed = BuildMixed(), cluster = BuildCluster(), embedded = BuildEmbedded();
     Driver D; D.seed = seed;
     { uint256 s; std::memcpy(s.begin(), &seed, sizeof(seed)); s.begin()[30] = 0x33; D.rng.Reseed(s); }
     const int64_t T0 = 1'200'000'000;
     for (int s = 0; s < sessions; ++s) {
-        const int kind = s % 4;     // 0, 2: mixed universe, random calls; 1: cluster universe; 3: pump
-        if (kind == 1) {
+        const int kind = s % 4;     // 0: mixed universe, random calls; 1: cluster universe; 2: embedded-IPv4 universe; 3: pump
+        if (kind == 2) {
+            D.Reset(embedded, T0 + s * 1000, "embedded");
+            // evictions in both directions between embedded-IPv4 and ordinary addresses, then random calls
+            static const int pairs[][2] = {{0, 1}, {5, 6}, {8, 9}, {3, 4}, {7, 5}, {0, 2}};
+            const size_t first = D.rng.randrange(std::size(pairs));
+            for (size_t k = 0; k < 3; ++k) { const auto& p = pairs[(first + k) % std::size(pairs)]; D.EvictBothWays(embedded.addrs[p[0]], embedded.addrs[p[1]]); }
+            for (int i = 0; i < ops; ++i) D.RandomOp();
+        } else if (kind == 1) {
             D.Reset(cluster, T0 + s * 1000, "cluster");
             // fill phase: everything announced, the first Good takes the slot, the others collide
             for (const auto& a : cluster.addrs) D.Add({&a}, D.PickSrc(), 0, {D.now - 100}, {NODE_NETWORK});
@@ -556,7 +646,8 @@ static int Drive(uint64_t seed, int sessions, int ops)
             D.Pump();
         } else {
             D.Reset(mixed, T0 + s * 1000, "mixed");
-            for (int i = 0; i < ops; ++i) { if (i == ops / 8) D.StaleScenario(); D.RandomOp(); }
+            D.BlockedScenario(); D.StaleScenario();        // on the fresh object: the pending entry is certain to be overwritten
+            for (int i = 0; i < ops; ++i) { if (i == ops / 2) D.StaleScenario(); D.RandomOp(); }
         }
     }
     UniValue end(UniValue::VOBJ); end.pushKV("e", "End");
@@ -574,8 +665,8 @@ int main(int argc, char** argv)
     if (mode == "drive") return Drive(argc > 2 ? std::strtoull(argv[2], nullptr, 10) : 1, argc > 3 ? std::atoi(argv[3]) : 4, argc > 4 ? std::atoi(argv[4]) : 300);
     if (mode == "universe") {
         { AddrManDeterministic probe{0}; g_key = probe.Key(); }
-        for (const Universe& u : {BuildMixed(), BuildCluster()}) {
-            for (const auto& a : u.addrs) { Slot t = TriedSlot(a.svc); std::printf("%s %s %s tried=(%d,%d) self=%s\n", a.name.c_str(), a.net.c_str(), a.svc.ToStringAddrPort().c_str(), t.b, t.p, a.self.c_str()); }
+        for (const Universe& u : {BuildMixed(), BuildCluster(), BuildEmbedded()}) {
+            for (const auto& a : u.addrs) { Slot t = TriedSlot(a.svc); std::printf("%s %s/%s %s tried=(%d,%d) self=%s\n", a.name.c_str(), a.net.c_str(), a.cls.c_str(), a.svc.ToStringAddrPort().c_str(), t.b, t.p, a.self.c_str()); }
             for (const auto& s : u.srcs) std::printf("%s %s\n", s.name.c_str(), s.addr.ToStringAddr().c_str());
         }
         return 0;
